@@ -563,7 +563,24 @@ fn tail_record(r: &mut Rng) -> Vec<u8> {
 }
 
 pub fn big_input(r: &mut Rng) -> (Big, &'static str) {
-    match r.below(7) {
+    match r.below(9) {
+        7 | 8 => {
+            // control message with a chosen *number* of undecodable records (around 2^8, 2^9,
+            // 2^10, 2^12, 2^13) between valid ones
+            let n = *r.pick(&[254usize, 255, 256, 257, 258, 511, 512, 513, 1_023, 1_024, 1_025, 4_096, 8_192, 9_000]);
+            let mut body = message_type_record(1);
+            let bad_attr = *r.pick(&[100u16, 20, 40, 65535]);
+            for i in 0..n {
+                if body.len() + 16 > 65_535 - 12 {
+                    break;
+                }
+                body.extend_from_slice(&raw_record(bad_attr, false, 0, &[], true));
+                if i % 97 == 5 && body.len() + 16 <= 65_535 - 12 {
+                    body.extend_from_slice(&[0x01, 0x06, 0, 0, 0, 39]);
+                }
+            }
+            (Big::Msg(control_around(&body, 1, 2, 3, 4)), "control_many_faults")
+        }
         0 | 1 => {
             // data message, offset size near 0xffff with the pad present (or one octet short)
             let has_l = r.chance(2, 3);
